@@ -26,6 +26,7 @@ Max2(a, b) == IF a > b THEN a ELSE b
 
 \* An argument: kind \in {"str","num","null","arr"}, r = its rendering (bytes;
 \* the print format of the value, top-level strings raw), src = source text.
+NoArg == [kind |-> "none", r |-> <<>>, src |-> "-"]
 KindOK(d, a) == \/ d = "v"
                 \/ d = "s" /\ a.kind = "str"
                 \/ d = "f" /\ a.kind = "num"
@@ -59,7 +60,7 @@ Expand(rs) == FlattenSeq([i \in 1..Len(rs) |-> [j \in 1..rs[i][2] |-> rs[i][1]]]
 \* The scanner.
 VARIABLES
   inp,     \* format bytes consumed so far
-  args,    \* the argument list after the format (constant during a call)
+  args,    \* the arguments looked at so far (the call may have more: never examined)
   mode,    \* Literal | Percent | WidthSign | WidthDigits | Fail | Done | Failed
   wneg, wzero, wval,   \* the width being read: sign, leading zero, value (saturating)
   buf,     \* pending buffer (pieces)
@@ -107,19 +108,25 @@ WidthDigit(c) ==
   /\ wval' = Min2(wval * 10 + DigitVal(c), TooWide)
   /\ UNCHANGED <<args, wneg, buf, argi, out, writes, why>>
 
-\* the directive letter: checks, then the padded rendering goes to the buffer
-Directive(c) ==
+\* the directive letter: checks, then the padded rendering goes to the buffer.
+\* a is the next argument of the call (NoArg: the list is exhausted); the
+\* argument list is data the scanner discovers one directive at a time, so it
+\* is a parameter of this action and `args` records what has been looked at.
+Directive(c, a) ==
   /\ mode \in {"Percent", "WidthDigits"} /\ c \in Dirs /\ Consume(c)
-  /\ LET need == c # "%"
-         have == argi < Len(args)
-     IN IF wval > MaxWidth THEN FailWith("wide")
-        ELSE IF need /\ ~have THEN FailWith("missing")
-        ELSE IF need /\ ~KindOK(c, args[argi + 1]) THEN FailWith("kind")
-        ELSE /\ mode' = "Literal"
-             /\ buf' = Append(buf, FldPiece(c, wval, wneg, wzero,
-                                            IF need THEN args[argi + 1].r ELSE <<"%">>))
-             /\ argi' = IF need THEN argi + 1 ELSE argi
-             /\ UNCHANGED <<args, wneg, wzero, wval, out, writes, why>>
+  /\ LET need == c # "%" IN
+     IF wval > MaxWidth THEN a = NoArg /\ FailWith("wide")
+     ELSE IF ~need THEN
+          /\ a = NoArg /\ mode' = "Literal"
+          /\ buf' = Append(buf, FldPiece(c, wval, wneg, wzero, <<"%">>))
+          /\ UNCHANGED <<args, wneg, wzero, wval, argi, out, writes, why>>
+     ELSE IF a = NoArg THEN FailWith("missing")
+     ELSE IF ~KindOK(c, a) THEN
+          /\ mode' = "Fail" /\ why' = "kind" /\ args' = Append(args, a)
+          /\ UNCHANGED <<wneg, wzero, wval, buf, argi, out, writes>>
+     ELSE /\ mode' = "Literal" /\ args' = Append(args, a) /\ argi' = argi + 1
+          /\ buf' = Append(buf, FldPiece(c, wval, wneg, wzero, a.r))
+          /\ UNCHANGED <<wneg, wzero, wval, out, writes, why>>
 
 \* a sign without digits
 BadWidth(c) ==
@@ -138,8 +145,9 @@ Skip(c) ==
   /\ mode = "Fail" /\ Consume(c)
   /\ UNCHANGED <<args, mode, wneg, wzero, wval, buf, argi, out, writes, why>>
 
-Step(c) == \/ Literal(c) \/ Percent(c) \/ WidthSign(c) \/ WidthDigit(c)
-           \/ Directive(c) \/ BadWidth(c) \/ Unknown(c) \/ Skip(c)
+\* A: the candidates for the next argument (NoArg among them)
+Step(c, A) == \/ Literal(c) \/ Percent(c) \/ WidthSign(c) \/ WidthDigit(c)
+              \/ (\E a \in A : Directive(c, a)) \/ BadWidth(c) \/ Unknown(c) \/ Skip(c)
 
 \* end of the format reached between directives: the ONE write
 EmitBuf ==
